@@ -293,6 +293,18 @@ Fixpoint taken_l (l : list event) : list N :=
   | _ :: r => taken_l r
   end.
 Definition taken (s : st) : list N := taken_l (log s).
+(** the descriptors the caller is responsible for, as the history tells it: those it opened or
+    took back with [take_raw_fd], minus those it closed itself or handed to [UnixFd::new] *)
+Fixpoint caller_l (l : list event) : list N :=
+  match l with
+  | [] => []
+  | EvOpen f _ :: r => f :: caller_l r
+  | EvTake f :: r => f :: caller_l r
+  | EvWrap f :: r => remove N.eq_dec f (caller_l r)
+  | EvCallerClose f :: r => remove N.eq_dec f (caller_l r)
+  | _ :: r => caller_l r
+  end.
+Definition caller_fds (s : st) : list N := caller_l (log s).
 (** which file a descriptor was created for *)
 Definition born (s : st) (f o : N) : Prop :=
   In (EvOpen f o) (log s) \/ (exists a, In (EvDup a f o) (log s)) \/ In (EvRecvFd f o) (log s).
@@ -330,3 +342,27 @@ Definition recv_msgs (s : st) : list (list N) := recv_l (log s).
 
 (** every handle has been dropped *)
 Definition all_dropped (s : st) : Prop := refs s = [].
+
+(** Everything that existed in [s] is unchanged in [s']: the caller's variables and
+    descriptors, every object and every table entry that was allocated. *)
+Definition frame (s s' : st) : Prop :=
+  hnd s' = hnd s /\ cfds s' = cfds s /\ (nobj s <= nobj s')%nat /\ nfd s <= nfd s'
+  /\ (forall o, (o < nobj s)%nat -> objs s' o = objs s o)
+  /\ (forall f, f < nfd s -> tab s' f = tab s f).
+
+(** What a successful push of the descriptors [its] must have done, stated from the property
+    text: the j-th element was duplicated ([fnew] is a different number for the same open file
+    as the source [src], which is still open and unchanged), the duplicate is held by the j-th
+    new object [o], which sits at position [pos + j] of the body's descriptor list, and that
+    position (as a u32) is the index written into the body. *)
+Fixpoint pushed (s s' : st) (pos : N) (its : list pitem) (news : list nat) (idxs : list N) : Prop :=
+  match its, news, idxs with
+  | [], [], [] => True
+  | it :: its', o :: news', idx :: idxs' =>
+    (exists src fnew, item_src s it = Some src /\ cell (objs s' o) = Some fnew /\ fnew <> src
+                      /\ tab s src <> None /\ tab s' fnew = tab s src /\ tab s' src = tab s src)
+    /\ strong (objs s' o) = 1%nat
+    /\ idx = pos mod 2 ^ 32
+    /\ pushed s s' (pos + 1) its' news' idxs'
+  | _, _, _ => False
+  end.
